@@ -23,6 +23,10 @@ def _floors(scale):
          "resizes_of_full_recvbuf": 100, "resizes_of_full_sendbuf": 200,
          "peer_fill_refused": 100, "send_fill_refused": 80,
          "@class:sub/*/after=unsubscribe*": 6,
+         # reply-path back pressure on REP (raw REQ peer that never reads replies): probes made while the previous reply was still in flight
+         "reply_busy_cases_reached": 6, "reply_probes_with_previous_reply_in_flight": 20,
+         "@class:reply-busy/inproc/socket/*": 3, "@class:reply-busy/tcp/socket/*": 3,
+         "@class:reply-busy/inproc/ctx/*": 3, "@class:reply-busy/tcp/ctx/*": 3,
          # gap 4: descriptors created lazily for a pollable that is already raised
          "lazy_fd_first_probes": 600, "lazy_fd_first_probe_raised": 400, "@class:lazy:*": 40,
          }
@@ -37,7 +41,7 @@ def _floors(scale):
 
 SPEC = dict(
     level="exploration",
-    level_text="Runtime differential monitor at quiescent points: for every protocol (cooked and raw) over inproc and tcp, random histories (peer send / peer fill until refused / peer receive / buffer resize / peer loss and return / local pipe close / subscribe-unsubscribe on socket and context / a blocking aio posted on the socket or a context and then cancelled, timed out, or left parked while probes run and a further event happens / a survey that expires) and enumerated 'parked' scenarios (messages pending from three peers, then one disruption for every target: pipe close, peer close, resize, unsubscribe with messages queued, resize of a FULL receive or send queue 4->1, 1->0, 0->4, the same with a sender waiting, a peer taking one or two messages while a sender waits, a new request/survey with the reply unread, survey expiry with responses unread) are driven. After every step, once the library is quiescent (guarded in-flight counter of tasks, pollers and reaps is zero and stays zero), the recv and send poll descriptors are sampled and non-blocking receives and sends are issued in every API form: nng_recvmsg/nng_sendmsg, the buffer forms nng_recv/nng_send, zero-timeout aios, and nng_ctx_recvmsg/nng_ctx_sendmsg and zero-timeout aios on an extra context (req, rep, sub, surveyor, respondent), in a seeded order, so that context activity is followed by socket probes that judge the descriptors. In half of the histories (two thirds of the parked scenarios) the descriptors are requested only after traffic, so the library creates them for a pollable that is already raised. Violations: descriptor readable but NNG_EAGAIN (persistent), success while the descriptor was not readable, NNG_EAGAIN although the same call with a 30 ms timeout then succeeds with no other stimulus (library idle for 10 ms and a second NONBLOCK attempt still refused), a flagged call failing with NNG_ETIMEDOUT, a NONBLOCK call during which the calling thread sleeps > 1.5 s (protocol timers are >= 2 s) or > 400 ms twice in a row, and ownership of a message after a failed send (message still attached to a failed zero-timeout aio; ASan / allocator balance for the other forms).",
+    level_text="Runtime differential monitor at quiescent points: for every protocol (cooked and raw) over inproc and tcp, random histories (peer send / peer fill until refused / peer receive / buffer resize / peer loss and return / local pipe close / subscribe-unsubscribe on socket and context / a blocking aio posted on the socket or a context and then cancelled, timed out, or left parked while probes run and a further event happens / a survey that expires) and enumerated 'parked' scenarios (messages pending from three peers, then one disruption for every target: pipe close, peer close, resize, unsubscribe with messages queued, resize of a FULL receive or send queue 4->1, 1->0, 0->4, the same with a sender waiting, a peer taking one or two messages while a sender waits, a new request/survey with the reply unread, survey expiry with responses unread; and, for REP, a raw REQ peer that sends requests and never reads replies until the previous reply is still in flight on the pipe when the next parked request is received and answered, socket and context form, where a readable send descriptor is confirmed at two quiescent points 200 ms apart BEFORE the attempt because a refused REP send consumes the reply state) are driven. After every step, once the library is quiescent (guarded in-flight counter of tasks, pollers and reaps is zero and stays zero), the recv and send poll descriptors are sampled and non-blocking receives and sends are issued in every API form: nng_recvmsg/nng_sendmsg, the buffer forms nng_recv/nng_send, zero-timeout aios, and nng_ctx_recvmsg/nng_ctx_sendmsg and zero-timeout aios on an extra context (req, rep, sub, surveyor, respondent), in a seeded order, so that context activity is followed by socket probes that judge the descriptors. In half of the histories (two thirds of the parked scenarios) the descriptors are requested only after traffic, so the library creates them for a pollable that is already raised. Violations: descriptor readable but NNG_EAGAIN (persistent), success while the descriptor was not readable, NNG_EAGAIN although the same call with a 30 ms timeout then succeeds with no other stimulus (library idle for 10 ms and a second NONBLOCK attempt still refused), a flagged call failing with NNG_ETIMEDOUT, a NONBLOCK call during which the calling thread sleeps > 1.5 s (protocol timers are >= 2 s) or > 400 ms twice in a row, and ownership of a message after a failed send (message still attached to a failed zero-timeout aio; ASan / allocator balance for the other forms).",
     level_note="Quiescence is established by the hook counters plus a settle re-check (3 ms on tcp); kernel loopback latency beyond that would show as a transient and is filtered by the persistence re-check. 'Blocks' is judged on the time the calling thread slept inside the call (wall minus on-CPU minus runnable time from /proc/thread-self/schedstat), not on wall time. NNG_FLAG_ALLOC does not exist in this version of the API. Send-side back-pressure of the kernel (large messages over tcp to a peer that does not read) is not driven: delayed ACKs are a stimulus the harness cannot see.",
     technique="runtime differential oracle (NONBLOCK vs short-timeout vs poll fd) at hooked quiescent points",
     rule="a case is (protocol, cooked/raw, transport, seeded history of 6-14 steps) or an enumerated (protocol, cooked/raw, transport, disruption, target); up to four probes (socket recv/send, context recv/send) after every step; a class is (protocol, transport, op, descriptor state, result, preceding step) actually observed, plus (protocol, op, API form, result), (lazily created descriptor, state, result) and (parked aio kind, outcome)",
